@@ -327,6 +327,8 @@ entry("pair_flatten", ": \" f", 1, 0, m_ident, needs="num", out="num", keeps=("i
 entry("nested_inf_flatten", "ƛ Þ∞ + ; f", 1, 0, lambda s: (next(iter([x])) + i + 1 for x in itertools.islice(s, 1) for i in itertools.count()),
       needs="num", out="num", first_only=True)
 entry("wrap_head", "w h", 1, 0, m_ident, needs="any", out="same", keeps=("inj", "consec"))
+entry("map_inf_head", "ƛ Þ∞ + ; ƛ h ;", 1, 0, m_map(lambda x: x + 1), needs="num", out="num", keeps=("inj", "consec"))
+entry("zip_shifted", ": › Z", 1, 0, lambda s: ([x, x + 1] for x in s), needs="num", out="list", keeps=("inj",))
 entry("map_sum", "ƛ∑;", 1, 0, m_mapsum, needs="list", out="num")
 entry("powerset", "ṗ", 1, 0, m_powerset, needs="any", out="list", first_only=True)
 entry("sublists", "ÞS", 1, 0, m_sublists, needs="any", out="list", first_only=True)
@@ -455,7 +457,7 @@ class C14(core.Check):
         "density-sensitive transformations (filters, uniquify, remove, group) are only placed where the input stream "
         "keeps the property their bound needs",
     ]
-    rule = ("one run = a pipeline of 1-3 catalogued transformations (80 entries) applied by transpiled program text to an "
+    rule = ("one run = a pipeline of 1-3 catalogued transformations (82 entries) applied by transpiled program text to an "
             "instrumented infinite source, plus a demand schedule (index / first-n / stepping / resumption / two "
             "pipelines over `:`-copies pulled alternately / abandonment), n <= 40. distinct = distinct (pipeline(s), "
             "demand pattern, n); non-trivial = every run (each is judged on termination, pull bound and values).")
@@ -486,8 +488,13 @@ class C14(core.Check):
         rw = sub_rng(seed, self.id, run, "workload")
         rs = sub_rng(seed, self.id, run, "schedule")
         maxlen = rw.choice([1, 2, 3, 3])
-        mode = rs.choice(["index", "firstn", "step", "resume", "two", "abandon", "index", "step"])
+        mode = rs.choice(["index", "firstn", "step", "resume", "two", "abandon", "index", "step", "elem_i", "slice_i",
+                          "forloop", "head_extract"])
         n = rs.choice([1, 2, 3, 5, 8, 13, 20, 30, 40]) if rs.random() < 0.5 else rs.randint(1, 40)
+        if rs.random() < 0.08:
+            n = rs.choice([17, 33, 64, 65, 101, 128, 130])  # size thresholds beyond the statement's n <= 40 (same bound)
+        if mode in ("firstn", "slice_i") and rs.random() < 0.15:
+            n = 0  # the empty prefix: nothing may be pulled beyond the bound for n = 0, and nothing may hang
         case = dict(mode=mode, n=n, a=self.gen_pipeline(rw, maxlen))
         if mode == "resume":
             case["n1"] = rs.randint(1, n)
@@ -505,7 +512,7 @@ class C14(core.Check):
         A = list(case["a"])
         B = list(case.get("b") or [])
         mode, n = case["mode"], case["n"]
-        if not A or n < 1 or not valid(A) or (B and not valid(B)):
+        if not A or n < 0 or (n == 0 and mode not in ("firstn", "slice_i")) or not valid(A) or (B and not valid(B)):
             return dict(verdict=DISCARD, sig="invalid-chain", log=[], steps=0, hist=None)
         nb = case.get("nb", 0) if mode == "two" else 0
         if mode == "two" and B:
@@ -552,6 +559,14 @@ class C14(core.Check):
                     prog = textA
                 if mode == "firstn":
                     prog = prog + f" {n} Ẏ"
+                elif mode == "elem_i":
+                    prog = prog + f" {n - 1} i"                      # the index element with a number
+                elif mode == "slice_i":
+                    prog = prog + f" ⟨0|{n}⟩ i"                      # the index element with a [start, stop] list
+                elif mode == "forloop":
+                    prog = prog + f" ( n ⅛ ¾ L {n} ≥ [ X ] )"        # step through a for loop, leave it with a break
+                elif mode == "head_extract":
+                    prog = prog + " " + " ".join(["ḣ $ ⅛"] * min(n, 12))  # take the head off, n times
                 w.run_code(w.compile_program(prog))
                 if mode == "two" and B:
                     resA, resB = w.stack[-2], w.stack[-1]
@@ -572,7 +587,27 @@ class C14(core.Check):
                     got = item_list(resA, min(n, 8))
                     gotB = item_list(resB, min(nb, 8))
                 else:
-                    res = w.stack[-1]
+                    res = w.stack[-1] if w.stack else None
+                    if mode in ("elem_i", "slice_i", "forloop", "head_extract"):
+                        pulled = pulls[0]
+                        k_ = min(n, 12) if mode == "head_extract" else n
+                        if mode == "elem_i":
+                            got_items, want_items = [tm(res)], [norm_model(x) for x in model_of(A, n)][-1:]
+                        elif mode == "slice_i":
+                            if isinstance(res, LL):
+                                res = res.listify()
+                            got_items, want_items = [tm(x) for x in res], [norm_model(x) for x in model_of(A, n)]
+                        else:
+                            got_items = [tm(x) for x in w.ctx.global_array]
+                            want_items = [norm_model(x) for x in model_of(A, k_)]
+                        log.append(dict(pulls=pulled, bound=bound, got=got_items[:8]))
+                        if pulled > bound:
+                            return fail("pulls", f"{pulled} pulls from the source > bound {bound}")
+                        if got_items != want_items:
+                            return fail("value", f"{mode}: got {got_items[:8]} != model {want_items[:8]}")
+                        cov.add(f"n:{min(n // 10, 4)}:{mode}:{len(A)}")
+                        return dict(verdict=OK, sig="", log=log, steps=world.CLOCK.steps + pulled, cov=sorted(cov), faults=faults,
+                                    hist=core.digest(case), probes={"stages": len(A), "two": 0})
                     if mode == "firstn":
                         if isinstance(res, LL):
                             res = res.listify()
